@@ -178,6 +178,8 @@ class Option(Evaluatable[A]):
             _ = self.evaluate(options)
         elif self.default is not MISSING:
             self.default.validate(options)
+            if self.domain is not MISSING:
+                self.domain.validate(options)
         else:
             raise KeyNotFoundError(self.key, self)
 
@@ -192,13 +194,18 @@ class Option(Evaluatable[A]):
         if dotted_key_exists(self.key, options):
             value = get_dotted_key(self.key, options)
             if isinstance(value, str):
-                return {self.key} | Template(value).keys(options)
+                keys = {self.key} | Template(value).keys(options)
             else:
-                return {self.key}
+                keys = {self.key}
         elif self.default is not MISSING:
-            return self.default.keys(options)
+            keys = self.default.keys(options)
         else:
             raise KeyNotFoundError(self.key, self)
+
+        if self.domain is not MISSING:
+            keys = keys | self.domain.keys(options)
+
+        return keys
 
     def explain(self, options: Optional[Options] = None) -> Set[str]:
         """Returns the keys required by the option."""
@@ -206,13 +213,18 @@ class Option(Evaluatable[A]):
         if dotted_key_exists(self.key, options):
             value = get_dotted_key(self.key, options)
             if isinstance(value, str):
-                return {self.key} | Template(value).explain(options)
+                keys = {self.key} | Template(value).explain(options)
             else:
-                return {self.key}
+                keys = {self.key}
         elif self.default is not MISSING:
-            return self.default.explain(options)
+            keys = self.default.explain(options)
         else:
-            return {self.key}
+            keys = {self.key}
+
+        if self.domain is not MISSING:
+            keys = keys | self.domain.explain(options)
+
+        return keys
 
     def __repr__(self) -> str:
         return (
